@@ -1541,7 +1541,10 @@ func (m *StateMachine) beginCommit(
 			"round", rlc.R,
 			"committing_hash", glog.Hex(vrv.VoteSummary.MostVotedPrecommitHash),
 		)
-		return
+
+		// Not a failure: the finalize block request is made from handleCommitWaitViewUpdate
+		// once the mirror shows the header.
+		return true
 	}
 
 	return gchan.SendC(
